@@ -111,3 +111,99 @@ def compare_tables(obs, model, cols=None, textcols=None):
     elif obs["avg"] is not None:
         cmp_row("", obs["avg"], model["avg"], "avg")
     return out
+
+
+# ---------------------------------------------------------------------------------------------------
+# case loop shared by the solved-table properties
+
+def desc_key(desc):
+    return [(c["kind"], c["name"], c["parents"], repr(sorted(c["args"].items(), key=lambda kv: kv[0])),
+             repr(c.get("pconf"))) for c in desc["comps"]] + [repr(desc.get("phases"))]
+
+
+def shape_stats(ctx, desc):
+    for c in desc["comps"]:
+        ctx.stats["kind:" + c["kind"]] += 1
+        for k, v in c["args"].items():
+            if isinstance(v, dict) and k != "limits":
+                ctx.stats["table:%dD" % (1 if len(v["vi"]) == 1 else 2)] += 1
+    ctx.stats["nodes:%s" % ("<=4" if len(desc["comps"]) <= 4 else "<=12" if len(desc["comps"]) <= 12 else ">12")] += 1
+    ctx.stats["sources:%d" % sum(1 for c in desc["comps"] if c["kind"] == "source")] += 1
+    if any(c["kind"] == "pmux" for c in desc["comps"]):
+        ctx.stats["has_mux"] += 1
+    if desc.get("phases"):
+        ctx.stats["has_phases"] += 1
+    if any(c["kind"] in ("source", "converter", "linreg") and c["args"].get("vo", 1) < 0 for c in desc["comps"]):
+        ctx.stats["negative_rail"] += 1
+
+
+def sweep_residuals(ctx, desc, obs, model, vtol, itol, relprefix=""):
+    """the model's laws, applied once more to the implementation's returned (v, i), reproduce them
+    within the solver's own exit test (factor-2 slack): ties `_solv_outp_volt/_solv_inp_curr` to the model"""
+    idx = {c["name"]: i for i, c in enumerate(desc["comps"])}
+    for p, sw in zip(obs["phases"], model["sweeps"]):
+        if sw.get("Ferr") is not None:
+            ctx.corr(desc, relprefix + "sweep: model raises %s where the implementation returned a table" % sw["Ferr"]["cls"],
+                     {"phase": p["phase"], "err": sw["Ferr"]})
+            continue
+        F = [wire.unnum(x) for x in sw["F"]]
+        G = [wire.unnum(x) for x in sw["G"]]
+        for r in p["rows"]:
+            n = idx[r["name"]]
+            fv, gv = float(F[n]), float(G[n])
+            if abs(r["vout"] - fv) > 2 * (ATOL + vtol * abs(fv)) + 1e-12:
+                ctx.corr(desc, relprefix + "sweep-voltage: v = F(v,i) within the exit test",
+                         {"phase": p["phase"], "row": r["name"], "impl_v": r["vout"], "model_F": fv})
+            if abs(r["iin"] - gv) > 2 * (ATOL + itol * abs(gv)) + 1e-12:
+                ctx.corr(desc, relprefix + "sweep-current: i = G(F(v,i),i) within the exit test",
+                         {"phase": p["phase"], "row": r["name"], "impl_i": r["iin"], "model_G": gv})
+
+
+def run_cases(ctx, n, gen_fn, per_case, solve_kw_fn=None, accept_errors=("ValueError(unstable)", "RuntimeError")):
+    """generate → build → solve → certify → per_case.  Construction failures are skipped and counted."""
+    skipped = 0
+    for k in range(n):
+        desc = gen_fn(ctx.rng)
+        kw = solve_kw_fn(ctx.rng) if solve_kw_fn else {"vtol": 1e-10, "itol": 1e-10}
+        sys_, df, err = solve_case(desc, kw)
+        if err is not None:
+            cls = sysdesc.exc_class(err[1])
+            ctx.stats["outcome:%s:%s" % (err[0], cls)] += 1
+            ctx.case(nontrivial=False)
+            if err[0] == "build" or cls not in accept_errors:
+                skipped += 1
+                ctx.notes.append("skipped case %d: %s %r" % (k, err[0], err[1])) if len(ctx.notes) < 10 else None
+            continue
+        obs = sysdesc.observe(df)
+        model = cert(ctx.drv, desc, obs, ta=kw.get("ta", 25.0))
+        ctx.stats["outcome:ok"] += 1
+        shape_stats(ctx, desc)
+        if not model.get("ok"):
+            ctx.corr(desc, "constructor: the model rejects a component the implementation accepted", model)
+            ctx.case(nontrivial=False)
+            continue
+        ctx.traces += 1
+        per_case(ctx, desc, obs, model, sys_, df, kw)
+    if n and skipped > 0.2 * n:
+        raise RuntimeError("more than 20%% of the generated cases could not be built/solved (%d/%d)" % (skipped, n))
+
+
+def run_witnesses(ctx, per_case, prop=None, kw=None):
+    """re-run the committed witness of every open known finding of this property (so a KNOWN-FINDING line is
+    printed only while the witness still fails), and every committed corpus case"""
+    import json, os, glob
+    from .check import load_known, VERIF
+    kw = kw or {"vtol": 1e-10, "itol": 1e-10}
+    descs = [k["witness_desc"] for k in load_known()
+             if k["property"] == (prop or ctx.prop) and k.get("status") == "open" and "witness_desc" in k]
+    for f in sorted(glob.glob(os.path.join(VERIF, "corpus", ctx.prop, "*.json"))):
+        descs.append(json.load(open(f))["case"])
+    for desc in descs:
+        sys_, df, err = solve_case(desc, kw)
+        ctx.stats["witness_runs"] += 1
+        if err is not None:
+            continue
+        obs = sysdesc.observe(df)
+        model = cert(ctx.drv, desc, obs, ta=kw.get("ta", 25.0))
+        if model.get("ok"):
+            per_case(ctx, desc, obs, model, sys_, df, kw)
